@@ -505,7 +505,9 @@ def Sys.act (cfg : Cfg) (s : Sys) : Op → Sys
     let s := { s with now := s.now + n }
     if s.exited then s else s.sweep (tickConn cfg s.now)
   | .open_ i =>
-    if (s.client i).opened ∨ i ≥ maxClients then s
+    -- (a client id connects at most once: the last two tests are implied by the first for every state
+    --  a script can reach, and spare the proofs an invariant about the client table)
+    if (s.client i).opened ∨ i ≥ maxClients ∨ s.backlog.contains i ∨ (s.conn i).isSome then s
     else if s.disabled = 3 then s.setClient i { opened := true, fdOpen := false, rderr := true }
     else { s.setClient i { opened := true, fdOpen := true } with backlog := s.backlog ++ [i] }
   | .prepare i r =>
